@@ -385,6 +385,9 @@ class StmtMixin:
         if et is PYOBJ:
             raise Unsupported("list comprehension element type", node)
         r = fresh(T.List(et), "comp")
+        ym = fresh(et, "cm")
+        # membership characterisation: y in r  <=>  y == body(i) for some (passing) source position i
+        st.assume(z3.ForAll([ym], z3.Implies(z3.Contains(r, z3.Unit(ym)), z3.Exists([i], z3.And(guard, *conds, ym == lift(body))))))
         if not conds:
             st.assume(z3.Length(r) == info.n)
             st.assume(z3.ForAll([i], z3.Implies(guard, r[i] == lift(body))))
@@ -793,13 +796,13 @@ class StmtMixin:
                 ha = ha if ha is not None else arr0
                 hb = hb if hb is not None else arr0
             m.heap[k] = ha if ha is hb or z3.eq(ha, hb) else z3.If(sel, ha, hb)
-        if a.alloc is None or b.alloc is None:
-            m.alloc = a.alloc if a.alloc is not None else b.alloc
-            if (a.alloc is None) != (b.alloc is None):
-                a0 = z3.Const("alloc0", z3.ArraySort(T.RefSort, z3.BoolSort()))
-                m.alloc = z3.If(sel, a.alloc if a.alloc is not None else a0, b.alloc if b.alloc is not None else a0)
+        if a.alloc is None and b.alloc is None:
+            m.alloc = None
         else:
-            m.alloc = a.alloc if z3.eq(a.alloc, b.alloc) else z3.If(sel, a.alloc, b.alloc)
+            n0 = z3.Int("now0")
+            xa = a.alloc if a.alloc is not None else n0
+            xb = b.alloc if b.alloc is not None else n0
+            m.alloc = xa if z3.eq(xa, xb) else z3.If(sel, xa, xb)
         for k in set(a.pyheap) | set(b.pyheap):
             va, vb = a.pyheap.get(k), b.pyheap.get(k)
             if va is not None and vb is not None and (va is vb or (va.is_py and vb.is_py and _safe_eq(va.py, vb.py))):
